@@ -313,6 +313,9 @@ func (p c20) Run(t *testing.T, c *Case, s Sched, keepLog bool) *Obs {
 	sim := MakeSim(s, keepLog)
 	o := &Obs{Sched: s, Extra: map[string]string{}}
 	o.Sched.Policy = sim.Policy.Name()
+	if s.UseTape {
+		o.Sched.Policy = "tape"
+	}
 	live := &c20Live{}
 	o.Live = live
 	seen := map[string]bool{}
